@@ -192,6 +192,9 @@ def eErr : Err → Json
 
 def ok (j : Json) : Json := Json.mkObj [("ok", j)]
 
+/-- answer of the C18 helper ops when the model says the code raises (kind not distinguished) -/
+def eRaises : Json := Json.mkObj [("err", "raises")]
+
 def eRes {α} (f : α → Json) : Res α → Json
   | .ok a => ok (f a)
   | .error e => eErr e
